@@ -1752,6 +1752,37 @@ func ruleKeywordLookupExact(r *Run) {
 					return false
 				}
 				v = originValueIn(stripTypeOnly(v), grp)
+				// the text a token carries (tok.Text of a token that is being built from the scan)
+				if f, base, ok := loadOfField(v); ok && f == "Text" && typeKey(derefType(base.Type())) == "Token" {
+					if al, isAl := base.(*ssa.Alloc); isAl {
+						for _, st := range storesTo(al) {
+							if _, isP := st.Val.(*ssa.Parameter); isP {
+								return true // a spilled parameter: the token was filled by the caller
+							}
+						}
+						okAll := false
+						for _, ref := range *al.Referrers() {
+							if fa, ok := ref.(*ssa.FieldAddr); ok {
+								if n, _, _ := fieldNameOf(fa); n == "Text" {
+									for _, st := range storesTo(fa) {
+										okAll = exact(st.Val, depth+1)
+										if !okAll {
+											return false
+										}
+									}
+								}
+							}
+						}
+						// a spilled parameter: the token was filled by the caller
+						for _, st := range storesTo(al) {
+							if _, isP := st.Val.(*ssa.Parameter); isP {
+								okAll = true
+							}
+						}
+						return okAll
+					}
+					return true
+				}
 				switch x := v.(type) {
 				case *ssa.Parameter:
 					return true
